@@ -117,6 +117,10 @@ func mangle(r *rand.Rand, src string) string {
 }
 
 var linkExtra = []string{
+	// statements and declarations that end one, two and three indent levels deeper than they start,
+	// each followed by a comment line at the start indent, an empty line and a sibling (the hanging-indent
+	// special case of link() is for "one deeper" only)
+	"package a\n\nfunc f() {\n\tfoo(a,\n\t\tb)\n\t// one\n\n\tn1()\n\tfoo(a,\n\t\tbar(b,\n\t\t\tc))\n\t// two\n\n\tn2()\n\tfoo(a,\n\t\tbar(b,\n\t\t\tbaz(c,\n\t\t\t\td)))\n\t// three\n\n\tn3()\n}\n\nvar v = foo(a,\n\tbar(b,\n\t\tc))\n// below v\n\nvar w = 1\n",
 	// a //line directive after a multi-line raw string: adjusted line numbers repeat (fix 8907ee9)
 	"package a\n\nvar s = `x\ny\nz`\n\n//line l3.go:3\nvar a = 1\n\nvar b = []int{\n\t1,\n\t2,\n}\n\nfunc f() {\n\tg()\n\n\th()\n}\n",
 	"package a\n\nvar x = append(\n\ta,\n\tb...,\n)\n\nfunc f() {\n\tg(\n\t\ta,\n\t\tb..., // spread\n\t)\n\th(a, b... /* inline */)\n\tk(\n\t\ta, // first\n\t\tb, /* second */\n\t)\n}\n",
